@@ -187,6 +187,7 @@ func cmdCheck(args []string) int {
 	funcs := map[string]bool{}
 	var samples []interface{}
 	violations := 0
+	vacuous := 0
 	inconclusive := 0
 	var inconclusiveWhy []string
 	knownLines := 0
@@ -310,6 +311,7 @@ func cmdCheck(args []string) int {
 					inconclusiveWhy = append(inconclusiveWhy, fmt.Sprintf("%s%v: unknown=%d boundhits=%d errors=%v panics=%v initfail=%v", e.Fn, params, ex.Unknown, ex.BoundHits, ex.Errors, ex.Panics, ex.InitFailures))
 				}
 				if len(ex.Reached) == 0 && len(ex.Viol) == 0 {
+					vacuous++
 					inconclusive++
 					inconclusiveWhy = append(inconclusiveWhy, fmt.Sprintf("%s%v: VACUOUS - no reach witness", e.Fn, params))
 				}
@@ -446,6 +448,10 @@ func cmdCheck(args []string) int {
 	if violations > 0 {
 		fmt.Printf("[%s %s] FAILED: %d violated assertion(s); wall %.1fs\n", prop, tier, violations, wall)
 		return 1
+	}
+	if vacuous > 0 {
+		fmt.Printf("[%s %s] ERROR: %d harness entr(ies) reached no witness at all (vacuous run): %s\n", prop, tier, vacuous, strings.Join(inconclusiveWhy, " | "))
+		return 2
 	}
 	if inconclusive > 0 {
 		fmt.Printf("[%s %s] INCONCLUSIVE parts (not counted as success, see evidence): %s\n", prop, tier, strings.Join(inconclusiveWhy, " | "))
